@@ -93,16 +93,25 @@ PROPS = {
         "level_text": "Lean theorems about the input-queue model (a byte read consumes exactly one byte, fails only on hang-up, waiting "
                       "loses nothing) and an executable model of the whole decoder and editor that is diffed against the real "
                       "Editor::readline on a pseudo-terminal for arbitrary byte streams; the no-panic / no-wedge / no-stall oracle runs "
-                      "on the implementation's own observations. Editor level, proved per command (C17_execute_safe): from a state satisfying EdWF (cursor of "
-                      "the line and of the saved line on a character boundary, history index within the history, kill-ring bounds "
-                      "invariant RingOK) and for helpers that do not panic, execute neither "
-                      "panics nor breaks EdWF for all Move commands, Kill (every movement), Replace, Yank, ViYankTo, SelfInsert, Newline, Insert, CompleteHint, TransposeChars, "
-                      "Capitalize/Downcase/UpcaseWord, TransposeWords, ClearScreen, Repaint, Interrupt, EndOfFile, AcceptLine, "
-                      "AcceptOrInsertLine (validator not panicking) and the commands execute ignores; next_cmd (all keymaps) preserves "
-                      "EdWF (C17_nextCmd_keeps_wf); the initial state satisfies it. Partial: YankPop, Undo, "
-                      "ReplaceChar, Overwrite, Indent/Dedent, the history commands and the sub-loops are not covered yet, so the "
-                      "whole-read statement stays C17_editor_no_panic_statement; a completer reporting start > cursor is a real panic "
-                      "source (C17_completer_start_beyond_cursor_panics), excluded by hypothesis; signals and real timing are exercised, not proved.",
+                      "on the implementation's own observations. Editor level (helpers that do not panic, indent size fits u8): "
+                      "C17_execute_safe — from a state satisfying EdWF (cursor of the line and of the saved line on a character "
+                      "boundary, kill-ring bounds invariant RingOK) execute neither panics nor breaks EdWF for EVERY command except "
+                      "Undo, YankPop and ReplaceChar (moves, kills, replace, yank, inserts, overwrite, indent/dedent, case and "
+                      "transpose commands, history recall over any back end, anchored history search, accept family, ...); no command "
+                      "makes the line non-growable (keeps_grow_execute). Whole read: C17_editor_no_panic_partial — circular and list "
+                      "completion, incremental search, the dispatch loop, quoted insert, suspend and the main loop (induction on the "
+                      "fuel; fuel exhaustion is the outcome fuel, not panic), the initial text and the final cursor move never end with "
+                      "the panic outcome, GIVEN the named open obligations C17_Open: (1) next_cmd does not panic — discharged for "
+                      "emacs mode (C17_next_safe_emacs: numeric arguments, custom single-key and key-sequence bindings with re-do, "
+                      "C-x sequences, character search, paste; binding table without vi's R command), open in vi mode (sign of the "
+                      "numeric argument through the digit loops; the redo of R); (2) Undo, YankPop, ReplaceChar are safe (Undo needs the "
+                      "C05 log invariant carried through every command and sub-loop; YankPop the cross-step fact that the cursor stands "
+                      "right after the yanked text; ReplaceChar a stable segmenter and the bound on counts). C17_editor_no_panic_emacs "
+                      "is the emacs-mode corollary with only (2) left. The full statement C17_editor_no_panic_statement is kept as a "
+                      "def: as written it is not provable — the completer contract must put start on a character boundary "
+                      "(C17_completer_start_inside_char_panics), Cmd::redo of vi R panics after an insertion of more than 65535 bytes "
+                      "(finding D-redo-len), and an application-bound YankPop in vi mode underflows after p/P. Signals and real "
+                      "timing are exercised, not proved.",
         "level_note": "Trusted: Lean kernel; pty harness (quiescence detection via /proc) and diff; utf8parse as standard UTF-8 validation; "
                       "kernel tty layer. Partial claim: see unproved statements in evidence.",
         "assumptions": ["keyseq_timeout = None (default)", "keys are delivered one key press at a time or as one type-ahead write"],
@@ -459,7 +468,10 @@ PROPS["C02"] = {
             "the pty harness cuts the output where the Event::Any handler runs (marker written from inside the handler)",
             "validators' messages, list completion, incremental-search prompts, the external printer, tabs and control characters in the "
             "text are outside this check (not in the property's quantifier, or other properties)"],
-        "unproved": [],
+        "unproved": ["C02_execute_pres_statement: every command of execute (and listing completion) keeps prompt, line and cursor shown - "
+                     "reduced to ~25 edit-function obligations (editKill, grouped, editYank, history recall, undo, indent, accept ...), "
+                     "each needing 'a line-buffer operation that reports no change changed nothing'; lifted so far: editInsert, "
+                     "editMove over a faithful motion, refreshLine, moveCursor, the key maps, circular completion, the loops"],
         "level_text": "Lean theorems, for every lawful segmenter, width table and terminal width >= 2, over prompts/lines/hints made of "
                       "line breaks and printable clusters of width 0/1/2: the grapheme loop of calculate_position simulates the cursor "
                       "of a VT100-style terminal (deferred wrap, early wrap of wide characters, zero-width joins); positions computed "
@@ -478,8 +490,17 @@ PROPS["C02"] = {
                       "its hint or without any hint. The five statements announced earlier in the vocabulary of calculate_position are "
                       "refuted as written (C02_*_statement_false: nothing was asked of the segmentation of the old text / of the "
                       "coherence of the log) and proved with the missing hypotheses (C02_full_refresh_consistent, "
-                      "C02_move_cursor_consistent, C02_fast_path_shows, C02_final_full, C02_history). That the editor model's log is "
-                      "coherent is not proved in Lean; the differential check covers the real Editor::readline "
+                      "C02_move_cursor_consistent, C02_fast_path_shows, C02_final_full, C02_history). The editor model's own log (Rl/Lemmas/RenderLog*.lean): an invariant relating the editor state to the "
+                      "replayed renderer state (believed cursor = Ed.layoutCursor; the screen shows the own prompt, the line and the cursor) is "
+                      "established by the first repaint and kept by every logging primitive (refreshLine, refreshLineWithMsg, moveCursor in "
+                      "its three ways, editInsert fast and slow path, the callback), by next_cmd in emacs and vi mode (numeric-argument "
+                      "prompts included), circular completion, the dispatch loop and the main loop; every C02_StepOK clause is discharged "
+                      "at its logging site and no replay step panics. C02_editor_log_coherent / C02_editor_shows conclude, for logs whose "
+                      "texts are of the quantified kind and cursors on char boundaries (LogFine), that the model's log is coherent and that "
+                      "at every callback the emulated terminal shows prompt+line+cursor - GIVEN C02_EditorParts: each command of execute "
+                      "and listing completion keep the invariant (C02_execute_pres_statement, not proved yet; three sample commands are) "
+                      "and incremental search does (false in general: finding D42, true without stored history). "
+                      "The differential check covers the real Editor::readline "
                       "on a pty at widths 2..40 and 80, its output interpreted by the Lean terminal emulator at every Event::Any "
                       "callback and compared with the from-scratch rendering (oracle) and with the model renderer's screen.",
         "level_note": "Trusted: Lean kernel; the terminal emulator Rl/Term.lean as the property's VT100-style terminal; unicode-width "
@@ -682,8 +703,8 @@ PROPS["C01"] = {
                      "scripted helpers are functions of the text (same table on both sides)",
                      "the README tables and the byte-encoding table are transcribed by hand into Rl/Spec/Doc.lean",
                      "the oracle stops judging (never guesses) where it cannot follow the key grouping: byte strings outside the documented encodings, completion and vi-mode search sub-loops, input ending inside a group"],
-    "unproved": ["C01_self_insert_once_statement", "C01_motion_pure_statement", "C01_outcome_statement"],
-    "level_text": "Lean theorems: every argument-free entry of the README tables for emacs mode (own table and the all-modes table), for every state, pending count and direction, is mapped by the model's keymap to the Cmd denoting the documented action resolved with the GNU count/direction conventions (C01_binding_table_emacs, _emacs_common); the count handed to a command after M-[-]d1..dk is the signed decimal value, first four significant digits (C01_numeric_argument, C01_arg_value_*); a printable character is inserted exactly once at the cursor (partial: without helper); no Move command except ViFirstPrint changes the text (partial); C-c is the interrupted outcome. The editor model is diffed against the real Editor::readline on a pty, and the documented-meaning oracle (README tables as data, declarative C04 targets) runs on the implementation's callbacks for every generated script. Partial: vi tables, operator+motion and the read-loop outcome are covered by the oracle and the correspondence only.",
+    "unproved": ["C01_self_insert_once_statement: REFUTED as written (it quantifies over helpers whose hinter panics: C01_self_insert_once_counterexample); the theorem C01_self_insert_once holds for every helper whose hinter does not panic"],
+    "level_text": "Lean theorems about the editor model, for every state, pending count and direction: every argument-free entry of the README tables — emacs mode, vi command mode, vi insert mode, each with the all-modes table — is mapped by the model's keymap (emacs / viCommand / viInsert) to the Cmd denoting the documented action resolved with the GNU count/direction conventions, the line untouched (C01_binding_table_emacs, _emacs_common, _vi_command, _vi_insert); for every operator d/c/y and every entry of the motion table viCmdMotion builds the documented movement, the count before the operator multiplied by the count before the motion, f/t/F/T + char remembered, the doubled operator = whole line (C01_vi_operator_motion, _counts, _char_search, _doubled); a custom-bound key yields exactly the bound command in all three keymaps, a bound two-key sequence its command and a non-completing pair none (C01_custom_binding_*, C01_custom_seq_binding, _fallback); the count handed to a command after M-[-]d1..dk is the signed decimal value, first four significant digits (C01_numeric_argument, C01_arg_value_*); a printable character is inserted exactly once at the cursor with any helper whose hinter does not panic (C01_self_insert_once; the unrestricted statement is refuted); no Move command changes the text (C01_motion_pure); C-c / C-d on the empty line / Enter on an accepted text end the read as documented at the step level, at the level of one main-loop iteration, from the decoded key in emacs mode and in the vi modes, and the value of readline is the text of the submitting state (C01_outcome_step, C01_outcome, C01_outcome_emacs_keys, C01_outcome_vi_keys, C01_outcome_readline). The editor model is diffed against the real Editor::readline on a pty, and the documented-meaning oracle (README tables as data, declarative C04 targets) runs on the implementation's callbacks for every generated script. Not proved: that execute of the denoted Cmd is the declarative Act.apply (covered by C04's theorems per movement and by the oracle).",
     "level_note": "Trusted: Lean kernel; pty harness; hand transcription of the README tables and byte encodings; the oracle stops judging where it cannot follow the key grouping. Reading decisions: vi C-d on a non-empty line, counts of 0, a minus typed after digits, `^` on a blank line, n-th character search with fewer than n occurrences, `a` with a count are not judged.",
     "assumptions": ["keyseq_timeout = None (default)"],
 }
